@@ -205,7 +205,9 @@ def fold_writes(repo: Repo) -> dict | None:
                     top = (1, 0x13) if endian == "<" else (((1 << (total - 4)) | 3), 1)   # too wide in the most significant field
                     low = (((1 << (total - 4)) | 3), 1) if endian == "<" else (1, 0x13)   # too wide next to a neighbour: would spill into it
                     neg = (1, -2)                                                          # a negative value
-                    for datas in (top, low, neg):
+                    edge_a = (1, 0x10)                      # exactly 2 ** bits: the smallest value that does not fit
+                    edge_b = ((1 << (total - 4)), 1)
+                    for datas in (top, low, neg, edge_a, edge_b):
                         sink.clear()
                         bb = m.buffer(endian, sink)
                         refused = False
